@@ -36,8 +36,12 @@ Section Proofs.
   Variable P : params.
   Variable src : heap.
   Variable U : list addr.
-  Hypothesis Hclosed : forall a, In a U -> exists o, src a = Some o /\
-    forall t ks k, In (t, ks) (oflds o) -> In k ks -> In k U.
+  (* Q: the addresses the walk may be started on -- closed under references and inside the finite universe U
+     (instances: membership in U; reachability from the root) *)
+  Variable Q : addr -> Prop.
+  Hypothesis HQ : forall a, Q a -> exists o, src a = Some o /\
+    forall t ks k, In (t, ks) (oflds o) -> In k ks -> Q k.
+  Hypothesis HQU : forall a, Q a -> In a U.
   Hypothesis Hnolate : forall a o, src a = Some o -> p_late P (p_cmap P (ocls o)) = None.
 
   Definition unmemo (s : st) : list addr :=
@@ -47,7 +51,8 @@ Section Proofs.
     (forall x y, mlook x s = Some y -> y < nxt s) /\
     (forall x x' y, mlook x s = Some y -> mlook x' s = Some y -> x = x') /\
     (forall y, y < nxt s -> exists x, mlook x s = Some y) /\
-    (forall y ob, dst s y = Some ob -> exists x o, src x = Some o /\ ocls ob = p_cmap P (ocls o)).
+    (forall y ob, dst s y = Some ob -> exists x o, src x = Some o /\ ocls ob = p_cmap P (ocls o)) /\
+    (forall x y, mlook x s = Some y -> Q x).
 
   Definition krel (s : st) (k d : addr) : Prop := mlook k s = Some d.
 
@@ -110,9 +115,9 @@ Section Proofs.
   Section Lists.
     Variable rec : addr -> st -> option (addr * st).
     Variable n : nat.
-    Hypothesis Hrec : forall a s, Inv s -> In a U -> length (unmemo s) < n -> post a s (rec a s).
+    Hypothesis Hrec : forall a s, Inv s -> Q a -> length (unmemo s) < n -> post a s (rec a s).
 
-    Lemma walk_list_ok l : forall s, Inv s -> (forall k, In k l -> In k U) -> length (unmemo s) < n ->
+    Lemma walk_list_ok l : forall s, Inv s -> (forall k, In k l -> Q k) -> length (unmemo s) < n ->
       exists ds s', walk_list rec l s = Some (ds, s') /\ ext s s' /\ Inv s' /\ Forall2 (krel s') l ds.
     Proof.
       induction l as [|k t IH]; intros s HI HU Hn; simpl.
@@ -126,7 +131,7 @@ Section Proofs.
         constructor; auto. unfold krel. apply (proj1 (proj2 X2)). exact M1.
     Qed.
 
-    Lemma walk_flds_ok fl : forall s, Inv s -> (forall t ks k, In (t, ks) fl -> In k ks -> In k U) ->
+    Lemma walk_flds_ok fl : forall s, Inv s -> (forall t ks k, In (t, ks) fl -> In k ks -> Q k) ->
       length (unmemo s) < n ->
       exists fl' s', walk_flds rec fl s = Some (fl', s') /\ ext s s' /\ Inv s' /\ Forall2 (fld_rel (krel s')) fl fl'.
     Proof.
@@ -155,14 +160,14 @@ Section Proofs.
   Lemma assoc_cons_ne (a x d : addr) (m : list (addr * addr)) : x <> a -> assoc x ((a, d) :: m) = assoc x m.
   Proof. intros H. simpl. destruct (Nat.eqb x a) eqn:E; auto. apply Nat.eqb_eq in E. contradiction. Qed.
 
-  Theorem walk_ok : forall fuel a s, Inv s -> In a U -> length (unmemo s) < fuel -> post a s (walk P src fuel a s).
+  Theorem walk_ok : forall fuel a s, Inv s -> Q a -> length (unmemo s) < fuel -> post a s (walk P src fuel a s).
   Proof.
     induction fuel as [|f IH]; intros a s HI Ha Hn; [lia|].
     simpl. destruct (mlook a s) as [d|] eqn:Em.
     - exists d, s. split; auto. split; [apply ext_refl|]. split; auto.
-    - destruct (Hclosed a Ha) as [o [Ho Hk]]. rewrite Ho.
+    - destruct (HQ a Ha) as [o [Ho Hk]]. rewrite Ho.
       set (d := nxt s). set (s1 := mkSt ((a, d) :: memo s) (dst s) (S d)).
-      destruct HI as [I1 [I2 [I3 I4]]].
+      destruct HI as [I1 [I2 [I3 [I4 I5]]]].
       assert (M1 : forall x, x <> a -> mlook x s1 = mlook x s).
       { intros x Hx. unfold mlook, s1. simpl memo. apply assoc_cons_ne. exact Hx. }
       assert (M1a : mlook a s1 = Some d).
@@ -180,11 +185,13 @@ Section Proofs.
           + exists a. exact M1a.
           + destruct (I3 y) as [x Hx]; [unfold d in *; lia|]. exists x. rewrite M1; auto.
             intros ->. congruence.
-        - intros y ob Hy. simpl in Hy. eauto. }
+        - intros y ob Hy. simpl in Hy. eauto.
+        - intros x y H. destruct (Nat.eq_dec x a) as [->|Hx]; auto. rewrite M1 in H by auto. eauto. }
       assert (Hn1 : length (unmemo s1) < f).
       { assert (length (unmemo s1) < length (unmemo s)); [|lia].
-        unfold unmemo. apply filter_len_lt with (a := a); auto.
+        unfold unmemo. apply filter_len_lt with (a := a).
         - intros x Hx. destruct (Nat.eq_dec x a) as [->|Hxa]; [now rewrite Em|]. rewrite <- M1; auto.
+        - now apply HQU.
         - now rewrite Em.
         - now rewrite M1a. }
       destruct (walk_flds_ok (walk P src f) f IH (oflds o) s1 HI1 Hk Hn1) as [fl [s2 [E2 [X2 [HI2 F2]]]]].
@@ -216,7 +223,8 @@ Section Proofs.
              exists o', fl'. split; auto. split; auto.
              unfold s3. simpl. unfold upd. destruct (Nat.eqb y d) eqn:E; auto.
              apply Nat.eqb_eq in E. simpl in Hge. lia.
-      + destruct HI2 as [J1 [J2 [J3 J4]]]. split; [exact J1|]. split; [exact J2|]. split; [exact J3|].
+      + destruct HI2 as [J1 [J2 [J3 [J4 J5]]]]. split; [exact J1|]. split; [exact J2|]. split; [exact J3|].
+        split; [|exact J5].
         intros y ob' Hy. unfold s3 in Hy. simpl in Hy. unfold upd in Hy. destruct (Nat.eqb y d).
         * inversion Hy; subst ob'. exists a, o. split; auto.
         * eauto.
@@ -228,7 +236,7 @@ Section Proofs.
     repeat split; unfold mlook; simpl; intros; try discriminate; lia.
   Qed.
 
-  Theorem walk_total r : In r U ->
+  Theorem walk_total r : Q r ->
     exists d s', walk P src (S (length U)) r st0 = Some (d, s') /\ Inv s' /\ mlook r s' = Some d /\
       (forall x y, mlook x s' = Some y -> done s' x y).
   Proof.
@@ -245,7 +253,7 @@ Section Proofs.
     forall y, In y (seq 0 (nxt s')) -> exists ob, dst s' y = Some ob /\
       forall t ks k, In (t, ks) (oflds ob) -> In k ks -> In k (seq 0 (nxt s')).
   Proof.
-    intros [I1 [I2 [I3 I4]]] Hd y Hy. apply in_seq in Hy.
+    intros [I1 [I2 [I3 [I4 I5]]]] Hd y Hy. apply in_seq in Hy.
     destruct (I3 y) as [x Hx]; [lia|]. destruct (Hd _ _ Hx) as [o [fl' [Ho [Hdst Hf]]]].
     eexists. split; [exact Hdst|]. simpl. intros t ks k Hin Hk.
     destruct (Forall2_In_r _ _ _ _ Hf Hin) as [[t0 l0] [_ [_ Hl]]]. simpl in Hl.
@@ -259,7 +267,7 @@ Section Proofs.
   Theorem walk_bisim s' : Inv s' -> (forall x y, mlook x s' = Some y -> done s' x y) ->
     bisim (krel s') src (dst s') /\ functional (krel s') /\ injective (krel s').
   Proof.
-    intros [I1 [I2 [I3 I4]]] Hd. repeat split.
+    intros [I1 [I2 [I3 [I4 I5]]]] Hd. repeat split.
     - intros x y Hxy. destruct (Hd _ _ Hxy) as [o [fl' [Ho [Hdst Hf]]]].
       exists o, (mkObj (p_cmap P (ocls o)) (oscal o) fl'). split; auto. split; auto.
       repeat split; simpl; auto. symmetry. eapply Hcmap; eauto.
@@ -267,7 +275,7 @@ Section Proofs.
     - intros a a' b H1 H2. unfold krel in *. eauto.
   Qed.
 
-  Theorem walk_iso r : In r U ->
+  Theorem walk_iso r : Q r ->
     exists d s', walk P src (S (length U)) r st0 = Some (d, s') /\ Inv s' /\ mlook r s' = Some d /\
       (forall x y, mlook x s' = Some y -> done s' x y) /\ iso src r (dst s') d.
   Proof.
